@@ -293,3 +293,263 @@ Proof. unfold ec_flag_options. destruct (negb _); intros H; inversion H; reflexi
 (* the no-EC flag bytes: both carry the two top bits, 0x20 says "compressed" *)
 Theorem noec_flagbyte_bits : bip38_noec_flag_uncompr = 192 /\ bip38_noec_flag_compr = 192 + 32.
 Proof. split; reflexivity. Qed.
+
+(* ================================================================ EC-multiplied keys *)
+Lemma split_8_16 (b : list N) : b = slice 0 8 b ++ slice 8 16 b ++ skipn 16 b.
+Proof.
+  transitivity (slice 0 8 b ++ skipn 8 b); [apply (slice_split 0 8 b); lia|]. f_equal. apply slice_split; lia.
+Qed.
+
+Lemma fields_8_16 m o p (b : list N) : b = m ++ o ++ p -> length m = 8%nat -> length o = 8%nat -> length p = 33%nat ->
+  slice 0 8 b = m /\ slice 8 16 b = o /\ skipn 16 b = p.
+Proof.
+  intros E Lm Lo Lp. assert (L : length b = 49%nat) by (subst b; rewrite !app_length; lia).
+  pose proof (split_8_16 b) as S. rewrite E in S at 1.
+  apply app_inj_len in S; [destruct S as [S1 S]|rewrite slice_length; lia].
+  apply app_inj_len in S; [destruct S as [S2 S]|rewrite slice_length; lia].
+  repeat split; symmetry; assumption.
+Qed.
+
+Lemma split_ec39 (b : list N) :
+  b = slice 0 2 b ++ slice 2 3 b ++ slice 3 7 b ++ slice 7 15 b ++ slice 15 23 b ++ skipn 23 b.
+Proof.
+  transitivity (slice 0 2 b ++ skipn 2 b); [apply (slice_split 0 2 b); lia|]. f_equal.
+  transitivity (slice 2 3 b ++ skipn 3 b); [apply slice_split; lia|]. f_equal.
+  transitivity (slice 3 7 b ++ skipn 7 b); [apply slice_split; lia|]. f_equal.
+  transitivity (slice 7 15 b ++ skipn 15 b); [apply slice_split; lia|]. f_equal.
+  apply slice_split; lia.
+Qed.
+
+Lemma fields_ec39 p f a o e1 e2 (b : list N) : b = p ++ [f] ++ a ++ o ++ e1 ++ e2 ->
+  length p = 2%nat -> length a = 4%nat -> length o = 8%nat -> length e1 = 8%nat -> length e2 = 16%nat ->
+  slice 0 2 b = p /\ nth_error b 2 = Some f /\ slice 3 7 b = a /\ slice 7 15 b = o /\ slice 15 23 b = e1 /\ skipn 23 b = e2.
+Proof.
+  intros E Lp La Lo L1 L2.
+  assert (L : length b = 39%nat) by (subst b; rewrite !app_length; cbn [length]; lia).
+  pose proof (split_ec39 b) as S. rewrite E in S at 1.
+  apply app_inj_len in S; [destruct S as [S1 S]|rewrite slice_length; lia].
+  apply app_inj_len in S; [destruct S as [S2 S]|rewrite slice_length; cbn; lia].
+  apply app_inj_len in S; [destruct S as [S3 S]|rewrite slice_length; lia].
+  apply app_inj_len in S; [destruct S as [S4 S]|rewrite slice_length; lia].
+  apply app_inj_len in S; [destruct S as [S5 S]|rewrite slice_length; lia].
+  repeat split; try (symmetry; assumption).
+  subst b. rewrite nth_error_app2 by lia. rewrite Lp. reflexivity.
+Qed.
+
+Lemma magic_distinct : list_eqb bip38_ec_magic_nolotseq bip38_ec_magic_lotseq = false.
+Proof. vm_compute. reflexivity. Qed.
+Lemma magic_lens : length bip38_ec_magic_lotseq = 8%nat /\ length bip38_ec_magic_nolotseq = 8%nat /\
+                   bytes_ok bip38_ec_magic_lotseq /\ bytes_ok bip38_ec_magic_nolotseq.
+Proof. repeat split; try reflexivity; apply bytes_okb_spec; vm_compute; reflexivity. Qed.
+
+Section Bip38Ec.
+  Set Default Proof Using "All".
+  Variable alph : list N.
+  Variable radix : N.
+  Variable cklen : nat.
+  Variable sha256 : list N -> list N.
+  Variable nfc : list N -> list N.
+  Variable utf8 : list N -> res (list N).
+  Variable scrypt : list N -> list N -> N -> N -> N -> N -> list N.
+  Variable aes_enc aes_dec : list N -> list N -> list N.
+  Variable G : Type.
+  Variable base : G.
+  Variable smul : N -> G -> G.
+  Variable ser_c : G -> list N.
+  Variable deser : list N -> option G.
+  Variable p2pkh : G -> bool -> list N.
+
+  Hypothesis alph_nodup : NoDup alph.
+  Hypothesis alph_len : length alph = N.to_nat radix.
+  Hypothesis radix_ge2 : 2 <= radix.
+  Hypothesis sha_len : forall x, length (sha256 x) = 32%nat.
+  Hypothesis sha_ok : forall x, bytes_ok (sha256 x).
+  Hypothesis cklen_le : (cklen <= 32)%nat.
+  Hypothesis scrypt_len : forall pw salt n r p dk, length (scrypt pw salt n r p dk) = N.to_nat dk.
+  Hypothesis aes_dec_enc : forall k b, length b = 16%nat -> aes_dec k (aes_enc k b) = b.
+  Hypothesis aes_enc_len : forall k b, length b = 16%nat -> length (aes_enc k b) = 16%nat.
+  Hypothesis aes_enc_ok : forall k b, bytes_ok (aes_enc k b).
+  Hypothesis ser_c_len : forall P, length (ser_c P) = 33%nat.
+  Hypothesis ser_c_ok : forall P, bytes_ok (ser_c P).
+  Hypothesis deser_ser : forall P, deser (ser_c P) = Some P.
+  (* Z-module laws of the group: (b*G)*a = (a*b mod n)*G *)
+  Hypothesis smul_smul : forall a b P, smul a (smul b P) = smul (a * b) P.
+  Hypothesis smul_mod_order : forall a, smul (a mod secp256k1_order) base = smul a base.
+
+  Notation b58c_enc := (check_encode alph radix cklen sha256).
+  Notation address_hash := (address_hash sha256 G p2pkh).
+  Notation pass_factor := (pass_factor sha256 nfc utf8 scrypt).
+  Notation gen_intermediate := (gen_intermediate alph radix cklen sha256 nfc utf8 scrypt G base smul ser_c).
+  Notation gen_private_key := (gen_private_key alph radix cklen sha256 scrypt aes_enc G smul ser_c deser p2pkh).
+  Notation ec_decrypt := (ec_decrypt alph radix cklen sha256 nfc utf8 scrypt aes_dec G base smul ser_c p2pkh).
+  Notation generate := (generate_private_key_ec alph radix cklen sha256 nfc utf8 scrypt aes_enc G base smul ser_c deser p2pkh).
+
+  Let cd_enc := check_decode_encode alph radix cklen sha256 alph_nodup alph_len radix_ge2 sha_len sha_ok cklen_le.
+
+  Definition has_ls (ls : option (Z * Z)) : bool := match ls with Some _ => true | None => false end.
+  Definition owner_entropy_of (ls : option (Z * Z)) (salt : list N) : res (list N) :=
+    match ls with Some (lot, seq) => owner_entropy_lotseq lot seq salt | None => Ok salt end.
+
+  (* the AES / xor algebra of the seedb encryption: the decrypter recovers seedb *)
+  Lemma ec_seedb_recover seedb dh1 dh2 : length seedb = 24%nat -> length dh1 = 32%nat ->
+    let ep1 := aes_enc dh2 (xor_bytes (slice 0 16 seedb) (slice 0 16 dh1)) in
+    let ep2 := aes_enc dh2 (xor_bytes (skipn 8 ep1 ++ skipn 16 seedb) (skipn 16 dh1)) in
+    let dp2 := xor_bytes (aes_dec dh2 ep2) (skipn 16 dh1) in
+    xor_bytes (aes_dec dh2 (slice 0 8 ep1 ++ slice 0 8 dp2)) (slice 0 16 dh1) ++ skipn 8 dp2 = seedb.
+  Proof.
+    intros Ls Ld. cbv zeta.
+    set (x1 := xor_bytes (slice 0 16 seedb) (slice 0 16 dh1)).
+    assert (Lx1 : length x1 = 16%nat) by (unfold x1; rewrite xor_length, !slice_length; lia).
+    set (ep1 := aes_enc dh2 x1). assert (Le1 : length ep1 = 16%nat) by (apply aes_enc_len; exact Lx1).
+    set (y := skipn 8 ep1 ++ skipn 16 seedb).
+    assert (Ly : length y = 16%nat) by (unfold y; rewrite app_length, !skipn_length; lia).
+    assert (Ld16 : length (skipn 16 dh1) = 16%nat) by (rewrite skipn_length; lia).
+    rewrite aes_dec_enc by (rewrite xor_length; lia).
+    rewrite xor_involutive by lia.
+    assert (Y1 : slice 0 8 y = skipn 8 ep1).
+    { unfold y. rewrite slice_0. apply firstn_app_exact. rewrite skipn_length. lia. }
+    assert (Y2 : skipn 8 y = skipn 16 seedb).
+    { unfold y. apply skipn_app_exact. rewrite skipn_length. lia. }
+    rewrite Y1, Y2, slice_0, (firstn_skipn 8 ep1). unfold ep1. rewrite aes_dec_enc by exact Lx1.
+    unfold x1. rewrite xor_involutive by (rewrite !slice_length; lia).
+    rewrite slice_0. apply firstn_skipn.
+  Qed.
+
+  Lemma ec_halves_len pp ah oe : let h := ec_halves scrypt pp ah oe in length (fst h) = 32%nat /\ length (snd h) = 32%nat.
+  Proof.
+    unfold ec_halves. destruct c_ec_scrypt as (_ & _ & _ & _ & _ & _ & _ & E). rewrite E. cbn [fst snd].
+    change (N.to_nat (64 / 2)) with 32%nat. rewrite firstn_length, skipn_length, scrypt_len.
+    change (N.to_nat 64) with 64%nat. split; reflexivity.
+  Qed.
+
+  Lemma address_hash_len' P c : length (address_hash P c) = 4%nat.
+  Proof. unfold Bip38.address_hash, dsha. rewrite firstn_length, sha_len, c_addr_hash_len. reflexivity. Qed.
+  Lemma address_hash_ok' P c : bytes_ok (address_hash P c).
+  Proof. unfold Bip38.address_hash, dsha. apply bytes_ok_firstn, sha_ok. Qed.
+
+  Lemma ec_flagbyte_lt c l : ec_flagbyte c l < 256.
+  Proof. destruct c, l; vm_compute; reflexivity. Qed.
+
+  (* ec_decrypt_generate *)
+  Theorem ec_decrypt_generate pass c ls salt seedb oe pfb :
+    owner_entropy_of ls salt = Ok oe -> length oe = 8%nat -> bytes_ok oe ->
+    pass_factor pass oe (has_ls ls) = Ok pfb ->
+    length seedb = 24%nat ->
+    let pf := be_to_int pfb in
+    let fb := be_to_int (dsha sha256 seedb) in
+    0 < pf < secp256k1_order -> 0 < fb < secp256k1_order -> (pf * fb) mod secp256k1_order <> 0 ->
+    exists enc key, generate pass c ls salt seedb = Ok enc /\ ec_decrypt enc pass = Ok (key, c) /\
+                    length key = 32%nat /\ be_to_int key = (pf * fb) mod secp256k1_order /\
+                    secp_priv_valid key = true.
+  Proof.
+    intros Hoe Loe Boe Hpf Lsb pf fb Rpf Rfb Hk.
+    destruct magic_lens as (ML1 & ML2 & MB1 & MB2).
+    set (P := smul pf base).
+    set (magic := if has_ls ls then bip38_ec_magic_lotseq else bip38_ec_magic_nolotseq).
+    assert (Lmagic : length magic = 8%nat) by (unfold magic; destruct (has_ls ls); assumption).
+    assert (Bmagic : bytes_ok magic) by (unfold magic; destruct (has_ls ls); assumption).
+    assert (PM : forall k Q, 0 < k < secp256k1_order -> point_mul G smul k Q = Ok (smul k Q)).
+    { intros k Q Hr. unfold point_mul. destruct (N.eqb_spec k 0); [lia|].
+      destruct (N.leb_spec secp256k1_order k); [lia|]. reflexivity. }
+    (* --- the intermediate code *)
+    assert (GI : gen_intermediate pass ls salt = Ok (b58c_enc (magic ++ oe ++ ser_c P))).
+    { unfold Bip38.gen_intermediate. fold (has_ls ls).
+      replace (match ls with Some (lot, seq) => owner_entropy_lotseq lot seq salt | None => Ok salt end)
+        with (owner_entropy_of ls salt) by (destruct ls as [[? ?]|]; reflexivity).
+      rewrite Hoe. cbn [bind Ok]. rewrite Hpf. cbn [bind Ok]. unfold pass_point. fold pf. rewrite PM by exact Rpf.
+      reflexivity. }
+    (* --- the encrypted key *)
+    set (Q := smul fb P). set (ah := address_hash Q c).
+    pose proof (address_hash_len' Q c) as Lah. fold ah in Lah.
+    destruct (ec_halves scrypt (ser_c P) ah oe) as [dh1 dh2] eqn:EH.
+    pose proof (ec_halves_len (ser_c P) ah oe) as HL. cbv zeta in HL. rewrite EH in HL. cbn [fst snd] in HL.
+    destruct HL as [Ld1 Ld2].
+    set (ep1 := aes_enc dh2 (xor_bytes (slice 0 16 seedb) (slice 0 16 dh1))).
+    set (ep2 := aes_enc dh2 (xor_bytes (skipn 8 ep1 ++ skipn 16 seedb) (skipn 16 dh1))).
+    assert (Le1 : length ep1 = 16%nat).
+    { apply aes_enc_len. rewrite xor_length, !slice_length; lia. }
+    assert (Le2 : length ep2 = 16%nat).
+    { apply aes_enc_len. rewrite xor_length, app_length, !skipn_length. lia. }
+    set (flag := ec_flagbyte c (has_ls ls)).
+    set (Y := bip38_ec_prefix ++ [flag] ++ ah ++ oe ++ slice 0 8 ep1 ++ ep2).
+    assert (MagicEq : list_eqb magic bip38_ec_magic_lotseq = has_ls ls).
+    { unfold magic. destruct (has_ls ls); [apply list_eqb_refl|apply magic_distinct]. }
+    assert (GP : gen_private_key (b58c_enc (magic ++ oe ++ ser_c P)) c seedb = Ok (b58c_enc Y)).
+    { unfold Bip38.gen_private_key, Bip38.b58c_dec. rewrite cd_enc.
+      2:{ repeat (apply bytes_ok_app; split); auto. }
+      cbn [bind Ok].
+      destruct (fields_8_16 magic oe (ser_c P) _ eq_refl) as (F1 & F2 & F3); auto.
+      assert (L49 : length (magic ++ oe ++ ser_c P) = 49%nat) by (rewrite !app_length, Lmagic, Loe, ser_c_len; reflexivity).
+      destruct c_ec_misc as (CI & _). rewrite L49, CI. cbn [Nat.eqb negb].
+      change (sl bip38_ec_gen_slices 0 (magic ++ oe ++ ser_c P)) with (slice 0 8 (magic ++ oe ++ ser_c P)).
+      change (sl bip38_ec_gen_slices 1 (magic ++ oe ++ ser_c P)) with (slice 8 16 (magic ++ oe ++ ser_c P)).
+      change (sl bip38_ec_gen_slices 2 (magic ++ oe ++ ser_c P)) with (skipn 16 (magic ++ oe ++ ser_c P)).
+      rewrite F1, F2, F3, deser_ser. cbn [of_option bind Ok].
+      assert (MC : list_eqb magic bip38_ec_magic_nolotseq || list_eqb magic bip38_ec_magic_lotseq = true).
+      { unfold magic. destruct (has_ls ls); rewrite list_eqb_refl; [apply orb_true_r|reflexivity]. }
+      rewrite MC. cbn [negb]. fold fb. rewrite PM by exact Rfb. cbn [bind Ok]. fold Q. fold ah. rewrite EH.
+      rewrite MagicEq. reflexivity. }
+    exists (b58c_enc Y).
+    (* --- decryption *)
+    assert (BY : bytes_ok Y).
+    { unfold Y. destruct c_ec_misc as (_ & _ & _ & CP & _). rewrite CP.
+      repeat (apply bytes_ok_app; split); auto.
+      - repeat constructor; lia.
+      - constructor; [apply ec_flagbyte_lt|constructor].
+      - apply address_hash_ok'.
+      - apply bytes_ok_slice, aes_enc_ok.
+      - apply aes_enc_ok. }
+    destruct (fields_ec39 bip38_ec_prefix flag ah oe (slice 0 8 ep1) ep2 Y eq_refl) as (F1 & F2 & F3 & F4 & F5 & F6); auto.
+    { rewrite slice_length; lia. }
+    assert (L39 : length Y = 39%nat).
+    { unfold Y. rewrite !app_length, Lah, Loe, Le2, slice_length by lia. reflexivity. }
+    destruct (fixed32 ((pf * fb) mod secp256k1_order)) as (key & EK & LK & BK & IK).
+    { apply N.mod_lt. pose proof c_order_pos. lia. }
+    assert (VK : secp_priv_valid key = true).
+    { apply secp_priv_valid_spec. rewrite IK. repeat split; auto; try lia.
+      apply N.mod_lt. pose proof c_order_pos. lia. }
+    exists key. split.
+    { unfold Bip38.generate_private_key_ec. rewrite GI. cbn [bind Ok]. exact GP. }
+    split; [|auto].
+    unfold Bip38.ec_decrypt, Bip38.b58c_dec. rewrite cd_enc by exact BY. cbn [bind Ok].
+    destruct c_ec_misc as (_ & CE & _ & _ & _). rewrite L39, CE. cbn [Nat.eqb negb].
+    change (sl bip38_ec_dec_slices 0 Y) with (slice 0 2 Y).
+    change (sl bip38_ec_dec_slices 2 Y) with (slice 3 7 Y).
+    change (sl bip38_ec_dec_slices 3 Y) with (slice 7 15 Y).
+    change (sl bip38_ec_dec_slices 4 Y) with (slice 15 23 Y).
+    change (sl bip38_ec_dec_slices 5 Y) with (skipn 23 Y).
+    change (fst (nth 1 bip38_ec_dec_slices (0%nat, 0%nat))) with 2%nat.
+    rewrite F1, F2, F3, F4, F5, F6. cbn [of_option bind Ok]. rewrite list_eqb_refl. cbn [negb].
+    unfold flag. rewrite ec_flag_options_flagbyte. cbn [bind Ok].
+    rewrite Hpf. cbn [bind Ok]. unfold pass_point. fold pf. rewrite PM by exact Rpf. cbn [bind Ok]. fold P.
+    rewrite EH.
+    change (sl bip38_ec_factorb_slices 0 dh1) with (skipn 16 dh1).
+    change (sl bip38_ec_factorb_slices 3 dh1) with (slice 0 16 dh1).
+    set (dp2 := xor_bytes (aes_dec dh2 ep2) (skipn 16 dh1)).
+    change (sl bip38_ec_factorb_slices 1 dp2) with (slice 0 8 dp2).
+    change (sl bip38_ec_factorb_slices 2 dp2) with (skipn 8 dp2).
+    pose proof (ec_seedb_recover seedb dh1 dh2 Lsb Ld1) as REC. cbv zeta in REC.
+    fold ep1 in REC. fold ep2 in REC. fold dp2 in REC. rewrite REC.
+    fold fb. rewrite c_ecdsa_priv_len, EK. cbn [bind Ok].
+    unfold pub_of_priv. rewrite VK. cbn [bind Ok].
+    assert (PQ : smul (be_to_int key) base = Q).
+    { rewrite IK, smul_mod_order. unfold Q, P. rewrite smul_smul. f_equal. apply N.mul_comm. }
+    rewrite PQ. fold ah. rewrite list_eqb_refl. reflexivity.
+  Qed.
+
+End Bip38Ec.
+
+(* the owner entropy is 8 bytes in both forms *)
+Lemma owner_entropy_len ls salt oe : owner_entropy_of ls salt = Ok oe ->
+  length salt = (if has_ls ls then 4 else 8)%nat -> bytes_ok salt -> length oe = 8%nat /\ bytes_ok oe.
+Proof.
+  intros E L B. destruct ls as [[lot seq]|]; cbn [owner_entropy_of has_ls] in *.
+  - destruct (Z_lt_dec lot 0) as [|H1]; [rewrite lot_seq_rejected in E by lia; discriminate|].
+    destruct (Z_lt_dec 1048575 lot) as [|H2]; [rewrite lot_seq_rejected in E by lia; discriminate|].
+    destruct (Z_lt_dec seq 0) as [|H3]; [rewrite lot_seq_rejected in E by lia; discriminate|].
+    destruct (Z_lt_dec 4095 seq) as [|H4]; [rewrite lot_seq_rejected in E by lia; discriminate|].
+    destruct (lot_seq_packing lot seq salt) as (E' & R & _); try lia.
+    rewrite E' in E. inversion E; subst oe. rewrite app_length, L. split; [reflexivity|].
+    apply bytes_ok_app. split; auto. apply be32_ok. exact R.
+  - inversion E; subst. auto.
+Qed.
